@@ -93,6 +93,8 @@ func (delegate *Delegate) NotifyMsg(msgBytes []byte) {
 		ctx := context.WithValue(
 			context.WithValue(context.Background(), internal.ContextServerID("ServerID"), string(msg.ServerID)),
 			internal.ContextConnID("ConnectionID"), msg.ConnId)
+		// The command (or key) belongs to the database that was selected where it was issued.
+		ctx = context.WithValue(ctx, "Database", msg.Database)
 
 		key := string(msg.Content)
 
@@ -110,6 +112,8 @@ func (delegate *Delegate) NotifyMsg(msgBytes []byte) {
 		ctx := context.WithValue(
 			context.WithValue(context.Background(), internal.ContextServerID("ServerID"), string(msg.ServerID)),
 			internal.ContextConnID("ConnectionID"), msg.ConnId)
+		// The command (or key) belongs to the database that was selected where it was issued.
+		ctx = context.WithValue(ctx, "Database", msg.Database)
 
 		cmd, err := internal.Decode(msg.Content)
 		if err != nil {
